@@ -105,7 +105,7 @@ fn run_one(exec: Execution, prefix: &[usize]) -> (Vec<Step>, RunOutcome, Vec<Str
         let t0 = Instant::now();
         let mut stuck = None;
         loop {
-            let busy = g.slots.iter().any(|x| x.st == sc::St::Running || x.st == sc::St::NotStarted) || g.expected_subs > 0;
+            let busy = g.slots.iter().any(|x| x.st == sc::St::Running || x.st == sc::St::NotStarted);
             if !busy {
                 break;
             }
@@ -834,6 +834,101 @@ impl SchedX {
                     }),
                 }
             }
+            // merkle update workers of ONE commit under scheduler control: 3 workers, one key pair
+            // per worker range plus a key living in the shared root page, witnessed
+            "M1" | "M1d" => {
+                sc::control_workers(true);
+                let dir = self.fresh();
+                let mut cf = cfg();
+                cf.cc = 3;
+                let n = open_nomt::<B3>(&dir, &cf).expect("open");
+                let mk = |r: u8, lo: u8| {
+                    let mut k = [0u8; 32];
+                    k[0] = (r << 2) | lo;
+                    k[31] = 7;
+                    k
+                };
+                let mut model = refmodel::Kv::new();
+                let mut base: Vec<(Key, Option<Vec<u8>>)> = vec![];
+                for r in [1u8, 24, 48] {
+                    base.push((mk(r, 0), Some(val(1))));
+                    base.push((mk(r, 1), Some(val(2))));
+                }
+                base.push((mk(60, 0), Some(val(3)))); // alone under its root child: leaf in the root page
+                sc::control_workers(false);
+                commit_kv(&n, &base).expect("base");
+                for (k, v) in &base {
+                    model.insert(*k, v.clone().unwrap());
+                }
+                sc::control_workers(true);
+                let n = Arc::new(n);
+                let errs = Arc::new(Mutex::new(Vec::<String>::new()));
+                let (n1, e1) = (n.clone(), errs.clone());
+                let delete_variant = name == "M1d";
+                let model2 = model.clone();
+                Execution {
+                    threads: vec![Box::new(move || {
+                        use crate::driver::Act;
+                        // one write below each worker's range, one in the root page
+                        let mut batch: Vec<(Key, Act)> = vec![
+                            (mk(1, 0), Act::Write(Some(val(9)))),
+                            (mk(24, 1), if delete_variant { Act::Write(None) } else { Act::ReadThenWrite(Some(val(8))) }),
+                            (mk(48, 0), Act::Write(Some(val(7)))),
+                            (mk(48, 1), Act::Read),
+                            (mk(60, 0), if delete_variant { Act::Write(None) } else { Act::Write(Some(val(6))) }),
+                        ];
+                        batch.sort_by(|a, b| a.0.cmp(&b.0));
+                        let s = n1.begin_session(crate::driver::witness_params());
+                        let actuals = match crate::driver::Db::<B3>::actuals(&s, &batch, &model2) {
+                            Ok(a) => a,
+                            Err(m) => {
+                                e1.lock().unwrap().push(m);
+                                return;
+                            }
+                        };
+                        let mut fin = match s.finish(actuals) {
+                            Ok(f) => f,
+                            Err(e) => {
+                                e1.lock().unwrap().push(format!("finish failed: {e:#}"));
+                                return;
+                            }
+                        };
+                        let mut after = model2.clone();
+                        crate::refmodel::Model::apply(&mut after, &crate::driver::writes_of(&batch));
+                        let want = refmodel::root::<B3>(&after);
+                        let got = fin.root().into_inner();
+                        if got != want {
+                            e1.lock().unwrap().push(format!("FinishedSession::root {} != reference root {}", hex(&got[..6]), hex(&want[..6])));
+                        }
+                        if let Some(w) = fin.take_witness() {
+                            if let Err(m) = crate::histx::check_witness(&w, &batch, &model2, fin.prev_root().into_inner(), got, want) {
+                                e1.lock().unwrap().push(format!("witness: {m}"));
+                            }
+                        }
+                        sc::control_workers(false);
+                        if let Err(e) = fin.commit(&n1) {
+                            e1.lock().unwrap().push(format!("commit failed: {e:#}"));
+                        }
+                        let mut m = crate::refmodel::Model::new(true, 4);
+                        m.kv = after;
+                        m.seqn = n1.sync_seqn();
+                        let keys: Vec<Key> = m.kv.keys().cloned().chain([mk(60, 0), mk(24, 1)]).collect();
+                        if let Err(x) = crate::driver::audit::<B3>(&n1, &m, &keys, crate::driver::AuditFlags::ALL) {
+                            e1.lock().unwrap().push(format!("after the commit: {x}"));
+                        }
+                        sc::control_workers(true);
+                    })],
+                    finish: Box::new(move || {
+                        sc::control_workers(false);
+                        let e = errs.lock().unwrap().clone();
+                        drop(n);
+                        if !e.is_empty() {
+                            return Err(e.join("; "));
+                        }
+                        Ok("ok".into())
+                    }),
+                }
+            }
             _ => panic!("unknown harness {name}"),
         }
     }
@@ -868,6 +963,17 @@ impl SchedX {
 }
 
 pub static SCHED_STATS: Mutex<Vec<Value>> = Mutex::new(Vec::new());
+
+/// Cases exploring the schedules of the merkle update workers (used by the C02 and C13 plans).
+pub fn worker_schedule_cases(thorough: bool) -> Vec<Value> {
+    let mut cases = vec![];
+    for h in ["M1", "M1d"] {
+        for b in if thorough { vec![0u64, 1, 2, 3, 99] } else { vec![0u64, 1, 2] } {
+            cases.push(json!({"harness": h, "bound": b, "max_exec": if thorough { 400000 } else { 3000 }, "budget_s": if thorough { 1500 } else { 35 }}));
+        }
+    }
+    cases
+}
 
 impl Engine for SchedX {
     fn plan(&self, prop: &str, tier: &str) -> Plan {
